@@ -105,4 +105,18 @@ theorem C05_source_storage (ctx : SCtx) (st : TState) (cell : Option (List Memo)
         = some (popStack st).stack) :=
   source_storage_model ctx st cell h
 
+/-- REFINEMENT, from the source read today: every history of `get_shape_memo` / `set_shape_memo` / `push_shape_memo` /
+    `pop_shape_memo` calls that the abstract stack machine accepts (no pop without a frame — which `C05_balanced` proves
+    of every program) runs on the translated functions without an error and leaves the thread's cell holding exactly the
+    abstract stack, from any starting cell (by induction over the history, Source/Storage.lean) -/
+theorem C05_source_storage_history (ops : List StackOp) (c : Option (List Memo)) (s' : List Memo)
+    (h : runStackSpec ops (c.getD []) = some s') :
+    (runStackImpl ops c).map (·.getD []) = some s' :=
+  source_storage_history ops c s' h
+
+/-- the hypothesis is satisfiable by a non-trivial history: a thread that never used the library pushes twice, writes,
+    reads, pops once -/
+example : runStackSpec [.push [], .push [], .set {}, .get, .pop] ((none : Option (List Memo)).getD []) = some [{ args := [] }] := by
+  simp [runStackSpec, StackOp.spec]
+
 end JV
